@@ -1,5 +1,6 @@
 import QcelVerif.Model.Units
 import QcelVerif.Model.UnitText
+import QcelVerif.Model.UnitRender
 import QcelVerif.Gen.UnitsCodata
 import QcelVerif.Gen.UnitNames
 import QcelVerif.Lib.Proto
@@ -16,6 +17,13 @@ Line-protocol driver for the C03 models.
                                           `pa/pb` the expression the text means, `ia/ib` what parse_expression computes
     spell|<pexp>|<base>                 →  the spellings `Units.Text.spellingsOf` lists for that prefix, comma-separated
     res|<name>                          →  key <canonical registry key>|err <class> ; unit <pexp> <base>|none
+    rend|<pre>|<post>|<rexpr>           →  wf <0|1>;listed <0|1>;ast <pexpr>;den <pexpr|err>;txt <text>
+                                          the RENDERER (Model/UnitRender.lean): `<rexpr>` is the decorated expression the harness drew
+                                          (prefix notation, `-` for an empty digit string):
+                                          `n <ip> <fp> <dotted> <hasExp> <capE> <esign> <ed>` | `u <pexp> <base> <name>` | `p e` |
+                                          `b <dv> <spaced> a b` | `j <blank> a b` | `w <crt> <spL> <spR> <paren> <sign> <blank> <digits> a`;
+                                          `txt` is `RExpr.renderTop pre post` (compared byte for byte with the harness's own string),
+                                          `wf`/`listed` the hypotheses of `Props/C03Parse.lean`, `ast` = `erase`, `den` = `denote`
 
 `<expr>` is a prefix-notation token list:  `n <rat>` | `u <pexp> <base>` | `* a b` | `/ a b` | `^ <int> a`.
 `<res>` is `ok <rat>` | `err Dimensionality` | `err UndefinedUnit`.
@@ -210,9 +218,86 @@ def stepText (line : String) : Option String :=
     | _, _ => some "bad-op"
   | _ => none
 
+/-! ### the renderer (Model/UnitRender.lean) -/
+
+def digitsOf? (s : String) : Option PStr.Bytes :=
+  if s == "-" then some []
+  else
+    let l := s.toList.map Char.toNat
+    if l.all Text.isDigit then some l else none
+
+def flag? : String → Option Bool
+  | "0" => some false
+  | "1" => some true
+  | _ => none
+
+def sign? : String → Option Nat
+  | "0" => some 0 | "1" => some 1 | "2" => some 2 | _ => none
+
+def parseRExpr : Nat → List String → Option (Text.RExpr × List String)
+  | 0, _ => none
+  | fuel + 1, toks =>
+    match toks with
+    | "n" :: ip :: fp :: dotted :: hasExp :: capE :: esign :: ed :: rest => do
+        let ip ← digitsOf? ip
+        let fp ← digitsOf? fp
+        let dotted ← flag? dotted
+        let hasExp ← flag? hasExp
+        let capE ← flag? capE
+        let esign ← sign? esign
+        let ed ← digitsOf? ed
+        some (.num ⟨ip, fp, dotted, hasExp, capE, esign, ed⟩, rest)
+    | "u" :: p :: b :: name :: rest => do
+        let p ← parseInt? p
+        let b ← baseOfName? b
+        some (.unit p b (name.toList.map Char.toNat), rest)
+    | "p" :: rest => do
+        let (e, r1) ← parseRExpr fuel rest
+        some (.paren e, r1)
+    | "b" :: dv :: sp :: rest => do
+        let dv ← flag? dv
+        let sp ← flag? sp
+        let (a, r1) ← parseRExpr fuel rest
+        let (b, r2) ← parseRExpr fuel r1
+        some (.bin dv sp a b, r2)
+    | "j" :: bl :: rest => do
+        let bl ← flag? bl
+        let (a, r1) ← parseRExpr fuel rest
+        let (b, r2) ← parseRExpr fuel r1
+        some (.juxt bl a b, r2)
+    | "w" :: crt :: spL :: spR :: paren :: sign :: blank :: ds :: rest => do
+        let crt ← flag? crt
+        let spL ← flag? spL
+        let spR ← flag? spR
+        let paren ← flag? paren
+        let sign ← sign? sign
+        let blank ← flag? blank
+        let ds ← digitsOf? ds
+        let (a, r1) ← parseRExpr fuel rest
+        some (.pow a crt spL spR ⟨paren, sign, blank, ds⟩, r1)
+    | _ => none
+
+def stepRend (line : String) : Option String :=
+  match splitOnChar line '|' with
+  | ["rend", pre, post, enc] =>
+    let toks := splitNonEmpty enc ' '
+    match parseInt? pre, parseInt? post, parseRExpr (toks.length + 1) toks with
+    | some pre, some post, some (e, []) =>
+      if pre < 0 || post < 0 then some "bad-op"
+      else
+        let b := fun (x : Bool) => if x then "1" else "0"
+        some (s!"wf {b e.WF};listed {b e.Listed};ast {showExpr e.erase};" ++
+          s!"den {showParsed (e.denote (Text.resolveUnit Gen.nameReg))};txt " ++
+          String.ofList ((e.renderTop pre.toNat post.toNat).map Char.ofNat))
+    | _, _, _ => some "bad-op"
+  | _ => none
+
 def stepAll (line : String) : String :=
-  match stepText line with
+  match stepRend line with
   | some r => r
-  | none => stepC03 line
+  | none =>
+    match stepText line with
+    | some r => r
+    | none => stepC03 line
 
 def main : IO Unit := mainLoop stepAll
